@@ -6,9 +6,9 @@
 package fakes
 
 import (
-	gosync "sync"
 	"context"
 	"io"
+	gosync "sync"
 
 	"anndbverif/vrt"
 
